@@ -116,6 +116,9 @@ func DecodeSenc(hdr BoxHeader, startPos uint64, r io.Reader) (Box, error) {
 	if err != nil {
 		return nil, err
 	}
+	if len(data) < 8 {
+		return nil, fmt.Errorf("senc: payload size %d less than 8", len(data))
+	}
 
 	versionAndFlags := binary.BigEndian.Uint32(data[0:4])
 	version := byte(versionAndFlags >> 24)
@@ -155,6 +158,10 @@ func DecodeSenc(hdr BoxHeader, startPos uint64, r io.Reader) (Box, error) {
 func DecodeSencSR(hdr BoxHeader, startPos uint64, sr bits.SliceReader) (Box, error) {
 	if hdr.Size < 16 {
 		return nil, fmt.Errorf("box size %d less than min size 16", hdr.Size)
+	}
+
+	if hdr.payloadLen() < 8 {
+		return nil, fmt.Errorf("senc: payload size %d less than 8", hdr.payloadLen())
 	}
 
 	versionAndFlags := sr.ReadUint32()
